@@ -1752,7 +1752,9 @@ class Union(OR):
             for left_value in left_values:
                 output = copy(sources)
                 output.update(left_value)
+                # Which operand the current output comes from: not what an earlier output (or evaluation) came from.
                 self.left_evaluated = True
+                self.right_evaluated = False
                 if self.left._is_false_:
                     if self._yield_when_false_:
                         yield from self.evaluate_right(output)
